@@ -31,7 +31,7 @@ SEEDS_POST = [
 fn(SM + "get_seeds", params={"tree": "ref:DemeTree"}, returns="dict[ref:AbstractDeme,ref:DemeCandidates]",
    requires=[cl("tree", "tree != None")] + [cl("s_" + c.label, c.text.replace("self", "tree")) for c in struct("self")]
             + [cl("problems", "LevelProblemsWf(tree)")],
-   modifies=[("_centroid", "True"), ("$list<ref:$Opaque>", "kind(o) == 7"), ("_threshold", "True")],
+   modifies=[("_centroid", "True"), ("$list<ref:$Opaque>", "kind(o) == 7"), ("_threshold", "True"), ("individuals", "True")],
    ensures=SEEDS_POST + [cl("t_" + c.label, c.text.replace("self", "tree")) for c in struct("self")],
    trusted=True, note="interface contract of the sprouting mechanism towards the tree; get_seeds itself is verified in e-files")
 
@@ -41,7 +41,8 @@ fn(T + "run_sprout",
    ghost_after={"get_seeds@0": ["setg(self, '$last_seeds', _call_result)"]},
    requires=struct("self") + [cl("problems", "LevelProblemsWf(self)"),
                               cl("mechanism", "MechOk(self._sprout_mechanism)")],
-   modifies=TREE_LISTS + USER_PROBLEM_FRAME + HIB_FRAME + [("_centroid", "True"), ("$list<ref:$Opaque>", "kind(o) == 7"), ("_threshold", "True")],
+   modifies=TREE_LISTS + USER_PROBLEM_FRAME + HIB_FRAME + [("_centroid", "True"), ("$list<ref:$Opaque>", "kind(o) == 7"), ("_threshold", "True"),
+                                                           ("$last_seeds", "o == self"), ("individuals", "True")],
    loops={0: dict(index="j", seq_base="anl", modifies=HIB_FRAME, invariant=[
        cl("inv_processed", "forall(lambda q: imp(Done(iter_reversed, len(anl), j, q), "
           "anl[q][1]._hibernating == (not (anl[q][1] in deme_seeds))))"),
@@ -97,7 +98,8 @@ ENGINE_PRIVATE = [("stds", "True"), ("_archive", "True"), ("_k", "True"), ("$arr
 LOCAL_PRIVATE = [("$list<ref:Individual>", "field(o, '$kind', 'int') == 10")]
 OWN_FRAME = ENGINE_PRIVATE + [("_active", "o == self"), ("_centroid", "o == self"),
              ("$list<list[list[ref:Individual]]>", "o == self._history"),
-             ("_n_evals", "o == self or o == self._problem"), ("$engine_stop", "o == self"),
+             ("_n_evals", "o == self or o == self._problem"), ("hit_precision", "o == self._problem"), ("ETA", "o == self._problem"),
+             ("$refused", "o == self._problem"), ("$engine_stop", "o == self"),
              ("$gsc_last", "o == tree"), ("$gsc_clock", "o == tree"), ("$lsc_last", "o == self"), ("weights", "o == tree._gsc")]
 macro("DemeRunnable", ["t", "d"], """
     InTree(t, d) and d._active and HistShape(d) and d._problem != None and wowner(d._problem) == d
@@ -161,7 +163,8 @@ fn(T + "run_metaepoch",
 
 # ---- run_step / run ----------------------------------------------------------------------------------------------------
 STEP_FRAME = RUNME_FRAME + TREE_LISTS + HIB_FRAME + [("metaepoch_count", "o == self"), ("_logger", "o == self"), ("$steps", "o == self"),
-                                                     ("$list<ref:$Opaque>", "kind(o) == 7"), ("_threshold", "True"), ("$last_seeds", "o == self")]
+                                                     ("$list<ref:$Opaque>", "kind(o) == 7"), ("_threshold", "True"), ("$last_seeds", "o == self"),
+                                                     ("individuals", "True")]
 RUN_PRE = struct("self") + [cl("problems", "LevelProblemsWf(self)"), cl("runnable", "AllRunnable(self)"),
                             cl("mechanism", "MechOk(self._sprout_mechanism)")]
 fn(T + "run_step",
